@@ -20,7 +20,7 @@
 (*   select := SELECT [DISTINCT] items FROM source [WHERE e] [GROUP BY es] *)
 (*             [ORDER BY e (ASC|DESC) [NULLS (FIRST|LAST)] {, ...}]        *)
 (*             [LIMIT e]                                                   *)
-(*   source := item [[LEFT] JOIN item ON e]                                *)
+(*   source := item [[INNER | LEFT [OUTER]] JOIN item ON e]                *)
 (*   item   := name [AS alias] | ( select ) [AS alias]                     *)
 (***************************************************************************)
 EXTENDS Integers, Sequences, FiniteSets, TLC
@@ -52,7 +52,9 @@ SCountIf(x) == [k |-> "CountIf", x |-> x]       \* count() FILTER (WHERE x)
 SCase(w, a, b) == [k |-> "Case", w |-> w, a |-> a, b |-> b]
 SStar == [k |-> "Star"]
 
-CmpOps == {"=", "<>", "<", "<=", ">", ">="}
+CmpOps == {"=", "<>", "<", "<=", ">", ">=", "!=", "=="}
+\* ClickHouse also spells the two equality tests != and ==
+NormOp(v) == CASE v = "!=" -> "<>" [] v = "==" -> "=" [] OTHER -> v
 \* infix level of the token at the cursor under table tbl, 0 if none
 InfixLevel(t, tbl) ==
   CASE IsKW(t, "OR") -> 1
@@ -150,7 +152,7 @@ RdTrail(ts, i, minLvl, tbl, lhs) ==
      THEN IF ~IsOP(TokAt(ts, i + 1), "(") THEN Fail
           ELSE LET vs == RdList(ts, i + 2, tbl, <<>>) IN
                IF vs.ok /\ IsOP(TokAt(ts, vs.i), ")") THEN RdTrail(ts, vs.i + 1, minLvl, tbl, SIn(lhs, vs.v)) ELSE Fail
-     ELSE LET op == IF t.k = "kw" THEN t.v ELSE t.v
+     ELSE LET op == NormOp(t.v)
               r == RdExpr(ts, i + 1, L + 1, tbl)
           IN IF r.ok THEN RdTrail(ts, r.i, minLvl, tbl, SBin(op, lhs, r.v)) ELSE Fail
 
@@ -194,10 +196,17 @@ RdSource(ts, i, tbl) ==
   LET l == RdSourceItem(ts, i, tbl) IN
   IF ~l.ok THEN Fail
   ELSE LET t == TokAt(ts, l.i)
-           isLeft == IsKW(t, "LEFT") /\ IsKW(TokAt(ts, l.i + 1), "JOIN")
-           isJoin == IsKW(t, "JOIN")
-       IN IF ~(isLeft \/ isJoin) THEN l
-          ELSE LET r == RdSourceItem(ts, l.i + (IF isLeft THEN 2 ELSE 1), tbl) IN
+           t1 == TokAt(ts, l.i + 1)
+           t2 == TokAt(ts, l.i + 2)
+           \* JOIN | INNER JOIN | LEFT JOIN | LEFT OUTER JOIN: number of keyword tokens (0: no join follows)
+           nkw == IF IsKW(t, "JOIN") THEN 1
+                  ELSE IF IsKW(t, "INNER") /\ IsKW(t1, "JOIN") THEN 2
+                  ELSE IF IsKW(t, "LEFT") /\ IsKW(t1, "JOIN") THEN 2
+                  ELSE IF IsKW(t, "LEFT") /\ IsKW(t1, "OUTER") /\ IsKW(t2, "JOIN") THEN 3
+                  ELSE 0
+           isLeft == IsKW(t, "LEFT")
+       IN IF nkw = 0 THEN l
+          ELSE LET r == RdSourceItem(ts, l.i + nkw, tbl) IN
                IF ~(r.ok /\ IsKW(TokAt(ts, r.i), "ON")) THEN Fail
                ELSE LET c == RdExpr(ts, r.i + 1, 1, tbl) IN
                     IF ~c.ok THEN Fail
